@@ -1,8 +1,262 @@
-(* C18 -- stub while the harness is brought up; replaced below *)
-From Coq Require Import ZArith List Bool.
+(* C18 -- Incoming messages reach exactly the responders that should fire.
+
+   Models (coq/model): OscMatch (rewrite of _oscmatch.py + the reachable part of sre_parse +
+   Brzozowski derivatives; OSC 1.0 pattern language), OscBundleParse (_osclib.py receive side),
+   Dispatch (responders.py + _oscinterface._handle_request), Registry (systemactions.py, model.py).
+   The main definitions describe the tree with build/proposed_fixes/C18_*.diff applied; the
+   definitions named *_orig / AsFound follow the tree as found and carry the ..._refuted theorems.
+   Only statements here; the proofs are in coq/proofs/C18_*.v. *)
+From Coq Require Import ZArith List Bool Arith.
 Import ListNotations.
 Require Import SC3.model.OscMatch SC3.model.OscBundleParse SC3.model.Dispatch SC3.model.Registry.
-Require Import SC3.proofs.C18_match.
+Require Import SC3.proofs.C18_match SC3.proofs.C18_parse SC3.proofs.C18_dispatch SC3.proofs.C18_registry.
 Open Scope Z_scope.
+
+(* ======================= (a) the matcher ======================================================== *)
+(* the derivative matcher decides membership in the language of the regex, for ALL regexes and
+   strings; `lang` is the inductive specification of `re` on this fragment *)
 Theorem deriv_match_correct : forall r s, rmatch r s = true <-> lang r s.
 Proof. intros r s. apply rmatch_correct. Qed.
+
+(* re.match (the tree as found) is: some PREFIX of the path is in the language *)
+Theorem prefix_match_characterised : forall r s,
+  rprefix r s = true <-> exists s1 s2, s = s1 ++ s2 /\ lang r s1.
+Proof. intros r s. apply rprefix_correct. Qed.
+
+(* the OSC 1.0 pattern language (inductive, part-wise: wildcards never match '/') is the language
+   of the regex a token sequence compiles to *)
+Theorem osc10_language_compiled : forall ts a, lang (compile ts) a <-> osc_lang ts a.
+Proof. exact compile_correct. Qed.
+
+(* whole-length matching: a literal pattern matches only itself (in particular never a path that
+   merely starts with it), and whenever the matcher says yes the WHOLE path is in the language of
+   the parsed pattern -- no suffix of the key is left unmatched *)
+Theorem match_whole_length :
+  (forall p a, forallb plain p = true -> (osc_rematch p a = MTrue <-> a = p))
+  /\ (forall p x s, forallb plain p = true -> osc_rematch p (p ++ x :: s) = MFalse)
+  /\ (forall p a, osc_rematch p a = MTrue -> exists r, re_parse (rewrite Repaired p) = OscMatch.POk r [] /\ lang r a).
+Proof.
+  split; [|split].
+  - intros p a H. apply (literal_matches_only_itself Repaired p a H).
+  - exact literal_no_suffix.
+  - intros p a H. apply (whole_match_in_language Repaired p a H).
+Qed.
+
+(* F3, the tree as found (re.match): the message address "/a" fires the matching responder "/ab" *)
+Theorem match_whole_length_as_found_refuted :
+  exists p a, forallb plain p = true /\ a <> p /\ osc_rematch_orig p a = MTrue.
+Proof. exists [47; 97], [47; 97; 98]. split; [vm_compute; reflexivity | split; [discriminate | vm_compute; reflexivity]]. Qed.
+
+(* the tree as found, even with fullmatch: "*" crosses the part boundary, "/*" matches "/a/b",
+   which is not in the OSC 1.0 language of that pattern *)
+Theorem wildcard_stays_in_part_as_found_refuted :
+  osc_rematch_full_only [47; 42] [47; 97; 47; 98] = MTrue
+  /\ ~ osc_lang [OLit 47; OStar] [47; 97; 47; 98]
+  /\ render [OLit 47; OStar] = [47; 42].
+Proof.
+  split; [vm_compute; reflexivity | split; [|reflexivity]].
+  intro H. apply compile_correct, rmatch_correct in H. vm_compute in H. discriminate.
+Qed.
+Example wildcard_repaired : osc_rematch [47; 42] [47; 97; 47; 98] = MFalse /\ osc_rematch [47; 42; 47; 42] [47; 97; 47; 98] = MTrue.
+Proof. split; vm_compute; reflexivity. Qed.
+(* "/m?t{ch,Ch}[a-z]n[!a-f]_*" against "/matChing_msg" (tests/test_oscfunc.py) *)
+Example matcher_computes :
+  osc_rematch [47;109;63;116;123;99;104;44;67;104;125;91;97;45;122;93;110;91;33;97;45;102;93;95;42]
+              [47;109;97;116;67;104;105;110;103;95;109;115;103] = MTrue.
+Proof. vm_compute. reflexivity. Qed.
+
+(* ======================= (c) the parser =========================================================== *)
+(* with fuel = number of bytes + 1 the (repaired) packet parser never runs out of fuel, for EVERY
+   byte string: the result is a list of messages or a parse error *)
+Theorem parse_total : forall d, parse_packet d <> POutOfFuel.
+Proof. exact parse_packet_total. Qed.
+
+(* F4, the tree as found: on "#bundle\0" <timetag> <int32 -4> the loop of _parse_contents comes back
+   to the same index; no amount of fuel is enough (the receive thread never returns) *)
+Theorem parse_total_as_found_refuted : forall fuel, parse_packet_orig fuel hostile_dgram = POutOfFuel.
+Proof. exact hostile_never_returns. Qed.
+(* ... and an element size reaching past the end of the datagram is silently truncated and its
+   message delivered: "#bundle\0" tt=1, size 416, "/m\0\0,i\0\0" 7 *)
+Example oversized_as_found_dispatches :
+  let d := bundle_prefix ++ [0;0;0;0;0;0;0;1] ++ [0;0;1;160] ++ [47;109;0;0;44;105;0;0;0;0;0;7] in
+  parse_packet_orig 100 d = POk [(TNow, {| m_addr := [47;109]; m_args := [VInt 7] |})] /\ parse_packet d = PError.
+Proof. split; vm_compute; reflexivity. Qed.
+Example parse_computes :
+  parse_packet (bundle_prefix ++ [0;0;1;0;0;0;0;0] ++ [0;0;0;12] ++ [47;109;0;0;44;105;0;0;0;0;0;7])
+  = POk [(TTag 1099511627776, {| m_addr := [47;109]; m_args := [VInt 7] |})].
+Proof. vm_compute. reflexivity. Qed.
+
+(* ======================= (b) dispatch ================================================================ *)
+(* `cmdp st` lists the enabled responders in the order of their current registration (the order of
+   their latest enable(); it is also the key order of CmdPeriod's registry).  For EVERY history h of
+   create / enable / disable / one_shot / free / function replacement / CmdPeriod / incoming
+   messages and datagrams, in the state reached: *)
+Theorem dispatch_exact : forall h m t src port,
+  let st := final h in
+  (* the exact dispatcher invokes exactly the enabled exact responders whose path equals the message
+     address and whose source, port and argument template accept, in registration order ... *)
+  map i_id (snd (dispatch_exact_d st m t src port)) = filter (fires st false (m_addr m) m src port) (cmdp st)
+  (* ... each once: the registration list has no duplicates and holds exactly the enabled responders *)
+  /\ NoDup (cmdp st) /\ (forall id, In id (cmdp st) <-> enabled st id = true)
+  (* and every invocation carries the message, its time, the sender and the port unchanged *)
+  /\ (forall i, In i (snd (incoming st m t src port)) ->
+        enabled st (i_id i) = true /\ i_msg i = m /\ i_time i = t /\ i_src i = src /\ i_port i = port).
+Proof.
+  intros h m t src port st. pose proof (Inv_final h) as HI. fold st in HI.
+  split; [apply exact_ids; assumption|]. split; [apply (inv_nodup st HI)|]. split; [apply (inv_enabled st HI)|].
+  apply incoming_spec. assumption.
+Qed.
+
+(* matching dispatcher: for every registered path that the message address, read as an OSC 1.0
+   pattern, matches over its whole length: the enabled matching responders of that path that
+   accept, in registration order; paths in the order in which they were (last) registered.
+   FULL statement (not true of the implementation, see matching_global_order_refuted below):
+     map i_id (snd (dispatch_match_d st m t src port))
+       = filter (fun id => matches-its-path && fires ...) (cmdp st)      -- ONE global registration order *)
+Theorem dispatch_matching_by_path_partial : forall h m t src port,
+  let st := final h in
+  map i_id (snd (dispatch_match_d st m t src port))
+    = flat_map (fun k => if matches m k then filter (fires st true k m src port) (cmdp st) else [])
+               (keys (act_match st))
+  /\ NoDup (keys (act_match st)).
+Proof.
+  intros h m t src port st. pose proof (Inv_final h) as HI. fold st in HI.
+  split; [apply match_ids; assumption | apply (inv_keys st HI true)].
+Qed.
+
+(* responders 0 ("/a"), 1 ("/b"), 2 ("/a"), all matching; the message "/?" invokes 0, 2, 1 *)
+Theorem matching_global_order_refuted :
+  let h := [OpCreate [47;97] true None None None 0%nat; OpCreate [47;98] true None None None 1%nat;
+            OpCreate [47;97] true None None None 2%nat] in
+  map i_id (snd (incoming (final h) {| m_addr := [47;63]; m_args := [] |} TNow (1, 2) 3)) = [0; 2; 1]%nat
+  /\ cmdp (final h) = [0; 1; 2]%nat.
+Proof. split; vm_compute; reflexivity. Qed.
+
+(* disabled, freed and already-fired one-shot responders are never invoked *)
+Theorem disabled_freed_oneshot_never : forall h,
+  let st := final h in
+  (* a responder that is not enabled is not invoked by any message, and an incoming message enables nothing *)
+  (forall m t src port i, In i (snd (incoming st m t src port)) -> enabled st (i_id i) = true)
+  /\ (forall m t src port id, enabled (fst (incoming st m t src port)) id = true -> enabled st id = true)
+  (* disable() and free() leave the responder not enabled *)
+  /\ (forall id, enabled (disable st id) id = false) /\ (forall id, enabled (free st id) id = false)
+  (* a one-shot function that fires leaves its responder not enabled *)
+  /\ (forall w m t src port g, w_func w = FOneShot g -> snd (call_wrapped st w m t src port) <> [] ->
+        enabled (fst (call_wrapped st w m t src port)) (w_id w) = false).
+Proof.
+  intros h st. pose proof (Inv_final h) as HI. fold st in HI.
+  split; [intros m t src port i Hi; apply (proj1 (incoming_spec st m t src port HI) i Hi)|].
+  split; [intros m t src port; apply (proj2 (incoming_spec st m t src port HI))|].
+  split; [apply enabled_disable_self|]. split; [intro id; apply enabled_disable_self|].
+  intros. eapply oneshot_disables; eassumption.
+Qed.
+
+Example dispatch_history :
+  let a1 := {| m_addr := [47;97]; m_args := [VInt 1] |} in
+  let h := [OpCreate [47;97] false None None None 0%nat; OpOneShot 0%nat;
+            OpCreate [97] false None None (Some [TEq (VInt 1); TEq (VInt 2)]) 1%nat;
+            OpCreate [47;97] false (Some (7, None)) None None 2%nat;
+            OpCreate [47;97] false None None None 3%nat; OpSetFunc 3%nat 9%nat;
+            OpIncoming a1 TNow (7, 8) 9; OpIncoming a1 TNow (6, 8) 9; OpCmdPeriod; OpIncoming a1 TNow (7, 8) 9] in
+  map (map inv_key) (snd (run init_state h))
+  = [[]; []; []; []; []; []; [(0, 0); (2, 2); (3, 9)]; [(3, 9)]; []; []]%nat.
+Proof. vm_compute. reflexivity. Qed.
+
+(* the tree as found: `for func in self.active[key]` over the live list -- after the one-shot
+   responder 0 removed itself, responder 1 is skipped *)
+Theorem dispatch_exact_as_found_refuted_oneshot :
+  let h := [OpCreate [47;97] false None None None 0%nat; OpOneShot 0%nat;
+            OpCreate [47;97] false None None None 1%nat; OpCreate [47;97] false None None None 2%nat] in
+  let m := {| m_addr := [47;97]; m_args := [] |} in
+  map i_id (snd (dispatch_exact_orig (final h) m TNow (1, 2) 3)) = [0; 2]%nat
+  /\ filter (fires (final h) false (m_addr m) m (1, 2) 3) (cmdp (final h)) = [0; 1; 2]%nat.
+Proof. split; vm_compute; reflexivity. Qed.
+(* the tree as found: a template longer than the message raises IndexError, responder 1 never runs *)
+Theorem dispatch_exact_as_found_refuted_template :
+  let h := [OpCreate [47;97] false None None (Some [TEq (VInt 1); TEq (VInt 2)]) 0%nat;
+            OpCreate [47;97] false None None None 1%nat] in
+  let m := {| m_addr := [47;97]; m_args := [VInt 1] |} in
+  map i_id (snd (dispatch_exact_orig (final h) m TNow (1, 2) 3)) = []
+  /\ filter (fires (final h) false (m_addr m) m (1, 2) 3) (cmdp (final h)) = [1]%nat.
+Proof. split; vm_compute; reflexivity. Qed.
+
+(* ======================= the receive path ================================================================ *)
+(* a datagram that does not parse (every byte string either parses or is an error, parse_total)
+   invokes nothing and leaves the responder state as it was ... *)
+Theorem malformed_dispatches_nothing : forall st d src port,
+  (forall ms, parse_packet d <> POk ms) -> handle_request st d src port = (st, []).
+Proof. exact malformed_nothing. Qed.
+(* ... so the next datagram is processed exactly as if the malformed one had never arrived *)
+Theorem receiver_survives : forall st bad src port d src' port',
+  (forall ms, parse_packet bad <> POk ms) ->
+  parse_packet bad = PError
+  /\ handle_request (fst (handle_request st bad src port)) d src' port' = handle_request st d src' port'.
+Proof.
+  intros st bad src port d src' port' H. split.
+  - destruct (parse_ok_or_error bad) as [[ms E] | E]; [exfalso; apply (H ms E) | exact E].
+  - rewrite (malformed_nothing st bad src port H). reflexivity.
+Qed.
+Example malformed_then_valid :
+  let h := [OpCreate [47;109] false None None None 0%nat;
+            OpDatagram hostile_dgram (1, 2) 3;
+            OpDatagram [47;109;0;0;44;105;0;0;0;0;0;7] (1, 2) 3] in
+  map (map inv_key) (snd (run init_state h)) = [[]; []; [(0, 0)]]%nat.
+Proof. vm_compute. reflexivity. Qed.
+
+(* ======================= (d) registries ==================================================================== *)
+Theorem registry_runs_current_in_order :
+  (* SystemAction (CmdPeriod, StartUp, ShutDown): run calls every registered action once, in
+     registration order, with the arguments currently registered *)
+  (forall r, NoDup (reg_keys r) -> sa_run (fun _ => []) r = (r, r))
+  (* when actions unregister others while it runs: what is called was registered, in registration
+     order, never twice *)
+  /\ (forall removes r, NoDup (reg_keys r) ->
+        sublist (map fst (snd (sa_run removes r))) (reg_keys r)
+        /\ forall a x, In (a, x) (snd (sa_run removes r)) -> reg_get a r = Some x)
+  (* add: an action registered again keeps its place and gets the new arguments, a new one goes last;
+     remove: the others keep their order; keys stay distinct over every history *)
+  /\ (forall k v r, reg_keys (sa_add k v r) = (if reg_mem k r then reg_keys r else reg_keys r ++ [k])
+                    /\ reg_get k (sa_add k v r) = Some v)
+  /\ (forall k r, NoDup (reg_keys r) -> reg_keys (sa_remove k r) = filter (fun j => negb (Nat.eqb j k)) (reg_keys r))
+  /\ (forall removes st o, NoDup (reg_keys (st_sa st)) -> NoDup (reg_keys (st_sa (fst (rstep removes st o)))))
+  (* ServerAction (ServerBoot, ServerQuit, ServerTree): a removed action is gone for that server and
+     only for it, and run(server) does not call it *)
+  /\ (forall s a t, sv_get s (sv_remove s a t) = option_map (reg_del a) (sv_get s t)
+                    /\ forall s', s' <> s -> sv_get s' (sv_remove s a t) = sv_get s' t)
+  /\ (forall s a t n d, s = KServer n \/ s = KAll \/ (s = KDefault /\ d = true) ->
+        (forall s' r, sv_get s' t = Some r -> NoDup (reg_keys r)) ->
+        (forall s', s' <> s -> forall r, sv_get s' t = Some r -> ~ In a (reg_keys r)) ->
+        ~ In a (map fst (sv_run n d (sv_remove s a t))))
+  (* NotificationCenter: notify calls the listeners registered for (object, message), in registration order *)
+  /\ (forall o m l a t, nc_notify o m (nc_register o m l a t)
+                        = reg_set l a (match nc_get (o, m) t with Some r => r | None => [] end)).
+Proof.
+  split; [exact sa_run_all|].
+  split; [intros removes r H; destruct (sa_run_from_sound removes (reg_keys r) r H) as (H1 & H2 & _); split; assumption|].
+  split; [intros k v r; split; [apply reg_keys_set | apply reg_get_set_same]|].
+  split; [intros k r H; apply reg_keys_del; assumption|].
+  split; [exact rstep_nodup|].
+  split; [exact sv_remove_spec|].
+  split; [exact sv_removed_not_run|].
+  intros o m l a t. unfold nc_notify, nc_register.
+  assert (E0 : okey_eqb (o, m) (o, m) = true) by (unfold okey_eqb; simpl; rewrite !Nat.eqb_refl; reflexivity).
+  induction t as [| [k r] t IH]; cbn [nc_put nc_get].
+  - rewrite E0. reflexivity.
+  - destruct (okey_eqb (o, m) k) eqn:E; cbn [nc_get]; rewrite E; [reflexivity | exact IH].
+Qed.
+
+(* F5, the tree as found: ServerAction.remove looks the action up and discards the result *)
+Theorem registry_serveraction_as_found_refuted :
+  exists t s a n, In a (map fst (sv_run n false (sv_remove_orig s a t))).
+Proof. exists (sv_add (KServer 1) 5 0 []), (KServer 1), 5%nat, 1%nat. vm_compute. left. reflexivity. Qed.
+Example registry_history :
+  rrun (fun a => if Nat.eqb a 1 then [2%nat] else []) rinit
+       [SaAdd 1 1; SaAdd 2 2; SaAdd 3 3; SaAdd 1 9; SaRun; SvAdd (KServer 1) 1 5; SvAdd KAll 2 6; SvRemove (KServer 1) 1; SvRun 1 false]%nat
+  = [[]; []; []; []; [(1, 9); (3, 3)]; []; []; []; [(2, 6)]]%nat.
+Proof. vm_compute. reflexivity. Qed.
+
+Print Assumptions deriv_match_correct.
+Print Assumptions match_whole_length.
+Print Assumptions parse_total.
+Print Assumptions dispatch_exact.
+Print Assumptions registry_runs_current_in_order.
